@@ -12,7 +12,6 @@ use crate::{
   obs::Obs,
   record::record,
   rng::Rng,
-  spec::build_box,
 };
 
 pub fn def() -> PropDef {
@@ -32,12 +31,12 @@ pub fn def() -> PropDef {
 fn gen(rng: &mut Rng, tier: Tier) -> Value {
   // the order of the two calls matters for trees with caches: stream first
   // fills them by streaming, map() first fills them from the inner map()
-  json!({ "spec": super::c02::ascii_tree_case(rng, tier), "map_first": rng.chance(1, 2) })
+  json!({ "spec": super::c02::ascii_tree_case(rng, tier), "map_first": rng.chance(1, 2), "share_instances": rng.chance(1, 2) })
 }
 
 fn check(case: &Value, obs: &mut Obs) {
   let spec = super::spec_of(case);
-  let src = build_box(&spec);
+  let src = super::build_under_test(case, &spec, obs);
   let source = src.source().to_string();
   let map_first = case["map_first"].as_bool().unwrap_or(false);
   obs.class(if map_first { "map_then_stream" } else { "stream_then_map" });
